@@ -796,6 +796,11 @@ Error RACFGBuilder::on_before_invoke(InvokeNode* invoke_node) noexcept {
           }
         }
       }
+      else if (ret.is_reg() && ret.reg_type() == RegType::kX86_St) {
+        // The callee returns in ST0 whether the caller reads the value or not - pop it, otherwise the x87 register
+        // stack overflows after eight such calls.
+        ASMJIT_PROPAGATE(cc().fstp(st0));
+      }
     }
   }
 
